@@ -58,6 +58,17 @@ def install():
             raise HarnessError(f"seam missing: _synchronization.{name}")
 
 
+def _cheap_frame_repr():
+    # h2 computes repr(frame) eagerly for a trace log call that goes nowhere; DATA
+    # frame reprs hex-dump the payload.  Logging only: no behaviour depends on it.
+    import hyperframe.frame as hf
+
+    hf.Frame.__repr__ = lambda self: "<%s stream=%d>" % (type(self).__name__, self.stream_id)
+
+
+_cheap_frame_repr()
+
+
 def set_world(w):
     global _WORLD
     _WORLD = w
